@@ -8,12 +8,14 @@
       push v | try_push v | pop | pop_if 0|1 | insert i v | try_insert i v | remove i
       swap_remove i | truncate n | clear | resize n v | resize_with n v…
       ext_slice v… | ext_copy v… | ext_array v… | ext_within sb eb | ext_within_copy sb eb
-      try_ext_within sb eb | ext_iter hint v… | append <kind> v… | split_off i
+      try_ext_within sb eb | ext_iter hint v… | append <kind> v… | const_append <cap2> v…
+      spare_write v… | split_off i
       drain sb eb <script> drop|leak | try_drain sb eb <script> drop|leak | into_iter <script>
       clone | reserve n | reserve_exact n | shrink_to n | shrink_fit | with_cap n
       from <array|box|vec|other|slice|slice_copy|cow_b|cow_o|iter> hint v…
   bounds: i<n> (included) | x<n> (excluded) | u;  script: letters n (next) / b (next_back), - if empty.
   One output line per input line:   <ret> | len=<n> cap=<n> [v1 v2 …]
+  (`const_append` prints `<ret> other=<v,…|-> | …`: the source vector afterwards.)
   A line `@<k> <op…>` runs the operation on the state saved in slot `k` and saves the result in
   slot `k+1` (the configuration line fills slot 0): this lets a depth-first enumeration of
   operation sequences cost one line per tree node.
@@ -81,6 +83,8 @@ def parseOp (ws : List String) : Option (Op Nat) :=
   | ["try_ext_within", a, b] => do some (.tryExtendFromWithin (← bnd? a) (← bnd? b))
   | "ext_iter" :: h :: vs => do some (.extend (← nat? h) (← nats? vs))
   | "append" :: _kind :: vs => do some (.append (← nats? vs))
+  | "const_append" :: c2 :: vs => do some (.constAppend (← nat? c2) (← nats? vs))
+  | "spare_write" :: vs => do some (.spareWrite (← nats? vs))
   | ["split_off", i] => do some (.splitOff (← nat? i))
   | ["drain", a, b, sc, f] => do some (.drain (← bnd? a) (← bnd? b) (← script? sc) (← fin? f))
   | ["try_drain", a, b, sc, f] => do some (.tryDrain (← bnd? a) (← bnd? b) (← script? sc) (← fin? f))
@@ -164,7 +168,13 @@ def handle (st : St) (line : String) : St × String :=
         if op.forIV then
           let (o, s') := s.step op
           let st' := St.iv s'
-          (st', showOutcome o ++ " | " ++ st'.show)
+          -- `const_append`: what the source vector holds afterwards is part of the observation
+          let extra :=
+            match op with
+            | .constAppend c2 other =>
+              " other=" ++ (match (s.constAppend c2 other).2.2 with | [] => "-" | l => showList l ",")
+            | _ => ""
+          (st', showOutcome o ++ extra ++ " | " ++ st'.show)
         else (st, "unsupported | " ++ st.show)
       | .tv s =>
         if op.forTV then
